@@ -100,7 +100,7 @@ def run_repr(case):
                 worst = max(worst, np.abs(a - b).max() / scale)
         if not exact:
             met[("direct_" if direct else "interp_") + name] = worst
-            if worst > rtol * TOLX:
+            if not (worst <= rtol * TOLX):
                 return failure("representation_mismatch", "%s: differs from the grid value by %.3g (rel)" % (name, worst), representation=name, theory=tname)
         return None
 
